@@ -1,19 +1,610 @@
-// Package c15: STUB — property C15 is not built yet.
+// Package c15: logging and snapshotting never change the forwarded message; the snapshot is a
+// parseable message equal to the original; skip-logging exchanges are recorded by no logger.
 package c15
 
-import "verif/harness/internal/core"
+import (
+	"bufio"
+	"bytes"
+	"fmt"
+	"io"
+	"net/http"
+	"reflect"
+	"strings"
+	"sync"
+
+	"github.com/google/martian/v3"
+	"github.com/google/martian/v3/har"
+	mlog "github.com/google/martian/v3/log"
+	"github.com/google/martian/v3/marbl"
+	"github.com/google/martian/v3/martianlog"
+	"github.com/google/martian/v3/messageview"
+
+	"verif/harness/internal/core"
+	"verif/harness/internal/msggen"
+)
 
 type P struct{}
 
-func init() { core.Register(P{}) }
+func init() {
+	core.Register(P{})
+	mlog.SetLevel(mlog.Silent)
+}
 
-func (P) ID() string   { return "C15" }
-func (P) Rule() string { return "stub" }
-func (P) Gen(r *core.Rand, tier string, emit func([]string)) {}
-func (P) NewExec() core.Exec                                   { return ex{} }
-func (P) Nontrivial(ops []string, impl []string) bool         { return false }
+func (P) ID() string { return "C15" }
+func (P) Rule() string {
+	return "case = one generated message (request or response; Content-Length / chunked with 0-3 input chunks / close-delimited / " +
+		"no body; trailers sent, announced-only or absent; identity, gzip, deflate, br or mis-announced gzip; 11 content types; " +
+		"form and multipart uploads) that is (a) snapshotted with messageview under a body-capture option (all / none / content-type list) " +
+		"with the snapshot bytes, offsets, the three reader sections and the Decode reader compared with the Lean model, and re-parsed " +
+		"with http.ReadRequest/ReadResponse against an untouched twin, and (b) run as a twin experiment through har.Logger (4 post-data " +
+		"x 4 body options), marbl.Modifier, martianlog.Logger (headersOnly x decode) and a bare snapshot, with and without " +
+		"skip-logging, comparing Write() output and struct fields of the logged message with its unlogged twin; bodies 0..64 KiB quick, " +
+		"0..2 MiB thorough; distinct by hash of the op list; non-trivial when the case has a body-carrying message and at least one " +
+		"twin op that produced a record"
+}
 
-type ex struct{}
+func (P) Nontrivial(ops []string, impl []string) bool {
+	body, rec := false, false
+	for i, l := range impl {
+		if strings.HasPrefix(ops[i], "snap ") {
+			f := strings.Fields(l)
+			if len(f) == 4 && f[0] == "ok" && f[1] != f[2] {
+				body = true
+			}
+		}
+		if strings.HasPrefix(l, "same rec=1") {
+			rec = true
+		}
+	}
+	return body && rec
+}
 
-func (ex) Do(op string) core.Result { return core.Result{Impl: "bad-op"} }
-func (ex) Close()                   {}
+func fail(sig, format string, a ...interface{}) core.Result {
+	return core.Result{Fail: fmt.Sprintf(format, a...), Sig: sig}
+}
+
+type ex struct {
+	mv  *messageview.MessageView
+	abs *msggen.Abs
+}
+
+func (P) NewExec() core.Exec { return &ex{} }
+func (e *ex) Close()         {}
+
+func ctsOf(tok string) []string {
+	if tok == "-" {
+		return nil
+	}
+	var out []string
+	for _, x := range strings.Split(tok, "+") {
+		b, _ := core.Unhex(x)
+		out = append(out, string(b))
+	}
+	return out
+}
+
+func ctsTok(cts []string) string {
+	if len(cts) == 0 {
+		return "-"
+	}
+	var s []string
+	for _, c := range cts {
+		s = append(s, core.HexS(c))
+	}
+	return strings.Join(s, "+")
+}
+
+// head is what "equal to the original" compares besides body and trailers.
+type head struct {
+	line    string
+	host    string
+	cl      int64
+	te      string
+	hdr     []msggen.KV
+	body    []byte
+	bodyErr string
+	trailer []msggen.KV
+}
+
+func stripFraming(h http.Header) http.Header {
+	o := http.Header{}
+	for k, v := range h {
+		if k == "Content-Length" || k == "Transfer-Encoding" || k == "Trailer" {
+			continue
+		}
+		o[k] = v
+	}
+	return o
+}
+
+func headOfReq(r *http.Request, readBody bool) head {
+	h := head{line: fmt.Sprintf("%s %s HTTP/%d.%d", r.Method, r.URL, r.ProtoMajor, r.ProtoMinor), host: r.Host,
+		cl: r.ContentLength, te: strings.Join(r.TransferEncoding, ","), hdr: msggen.SortedKV(stripFraming(r.Header))}
+	if readBody {
+		if r.Body != nil {
+			b, err := io.ReadAll(r.Body)
+			h.body = b
+			if err != nil {
+				h.bodyErr = err.Error()
+			}
+		}
+		h.trailer = msggen.SortedKV(r.Trailer)
+	}
+	return h
+}
+
+func headOfRes(r *http.Response, readBody bool) head {
+	h := head{line: fmt.Sprintf("HTTP/%d.%d %s", r.ProtoMajor, r.ProtoMinor, r.Status),
+		cl: r.ContentLength, te: strings.Join(r.TransferEncoding, ","), hdr: msggen.SortedKV(stripFraming(r.Header))}
+	if readBody {
+		if r.Body != nil {
+			b, err := io.ReadAll(r.Body)
+			h.body = b
+			if err != nil {
+				h.bodyErr = err.Error()
+			}
+		}
+		h.trailer = msggen.SortedKV(r.Trailer)
+	}
+	return h
+}
+
+func (a head) diff(b head) string {
+	switch {
+	case a.line != b.line:
+		return fmt.Sprintf("start line %q vs %q", a.line, b.line)
+	case a.host != b.host:
+		return fmt.Sprintf("host %q vs %q", a.host, b.host)
+	case a.cl != b.cl:
+		return fmt.Sprintf("content length %d vs %d", a.cl, b.cl)
+	case a.te != b.te:
+		return fmt.Sprintf("transfer encoding %q vs %q", a.te, b.te)
+	case msggen.KVString(a.hdr) != msggen.KVString(b.hdr):
+		return fmt.Sprintf("headers %s vs %s", msggen.KVString(a.hdr), msggen.KVString(b.hdr))
+	case a.bodyErr != b.bodyErr:
+		return fmt.Sprintf("body read error %q vs %q", a.bodyErr, b.bodyErr)
+	case !bytes.Equal(a.body, b.body):
+		return fmt.Sprintf("body %d bytes vs %d bytes", len(a.body), len(b.body))
+	case msggen.KVString(a.trailer) != msggen.KVString(b.trailer):
+		return fmt.Sprintf("trailers %s vs %s", msggen.KVString(a.trailer), msggen.KVString(b.trailer))
+	}
+	return ""
+}
+
+// reparse parses snapshot bytes and compares them with the original (an untouched twin).
+func reparse(a *msggen.Abs, snap []byte, orig head, full bool) string {
+	var got head
+	if a.Req {
+		r, err := http.ReadRequest(bufio.NewReader(bytes.NewReader(snap)))
+		if err != nil {
+			return "snapshot does not parse: " + err.Error()
+		}
+		got = headOfReq(r, full)
+	} else {
+		r, err := http.ReadResponse(bufio.NewReader(bytes.NewReader(snap)), msggen.DummyReq())
+		if err != nil {
+			return "snapshot does not parse: " + err.Error()
+		}
+		got = headOfRes(r, full)
+	}
+	if !full {
+		// headers-only snapshot: framing fields still describe the (absent) body; compare the head
+		orig.body, orig.bodyErr, orig.trailer = nil, "", nil
+	}
+	return got.diff(orig)
+}
+
+func (e *ex) Do(op string) core.Result {
+	t := strings.Fields(op)
+	switch t[0] {
+	case "snap":
+		return e.snap(t)
+	case "sections":
+		return e.sections()
+	case "decode":
+		return e.decode(t)
+	case "twin":
+		return twin(t)
+	}
+	return core.Result{Impl: "bad-op"}
+}
+
+// snap <mode> <skip:0|1|ct> <cts> M...
+func (e *ex) snap(t []string) core.Result {
+	if len(t) != 4+msggen.NTok {
+		return core.Result{Impl: "bad-op"}
+	}
+	a, ok := msggen.FromTokens(t[4:])
+	if !ok {
+		return core.Result{Impl: "bad-op"}
+	}
+	mode, skip, cts := t[1], t[2], ctsOf(t[3])
+	mv := messageview.New()
+	switch skip {
+	case "1":
+		mv.SkipBody(true)
+	case "ct":
+		mv.SkipBodyUnlessContentType(cts...)
+	}
+	captured := skip == "0"
+	if skip == "ct" {
+		for _, c := range cts {
+			if strings.HasPrefix(a.Get("Content-Type"), c) {
+				captured = true
+			}
+		}
+	}
+	if a.NilBody {
+		captured = false
+	}
+	var err error
+	var orig head
+	var after head
+	if a.Req {
+		req, bad := a.BuildRequest(mode)
+		if bad != "" {
+			return core.Result{Impl: "gen-mismatch " + bad}
+		}
+		twinReq, _ := a.BuildRequest(mode)
+		orig = headOfReq(twinReq, true)
+		err = mv.SnapshotRequest(req)
+		after = headOfReq(req, true)
+	} else {
+		res, bad := a.BuildResponse(mode, msggen.DummyReq())
+		if bad != "" {
+			return core.Result{Impl: "gen-mismatch " + bad}
+		}
+		twinRes, _ := a.BuildResponse(mode, msggen.DummyReq())
+		orig = headOfRes(twinRes, true)
+		err = mv.SnapshotResponse(res)
+		after = headOfRes(res, true)
+	}
+	e.mv, e.abs = mv, a
+	if err != nil {
+		return core.Result{Impl: "err"}
+	}
+	rd, err := mv.Reader()
+	if err != nil {
+		return core.Result{Impl: "err"}
+	}
+	snap, _ := io.ReadAll(rd)
+	hb, _ := io.ReadAll(mv.HeaderReader())
+	br, _ := mv.BodyReader()
+	bb, _ := io.ReadAll(br)
+	impl := fmt.Sprintf("ok %d %d %s", len(hb), len(hb)+len(bb), core.Hex(snap))
+	core.Count("snap:" + map[bool]string{true: "captured", false: "headers-only"}[captured])
+
+	// oracle 1: taking the snapshot left the message as it was
+	if d := after.diff(orig); d != "" {
+		r := fail("c15:snapshot-changed-message", "message after snapshot differs from untouched twin: %s", d)
+		r.Impl = impl
+		return r
+	}
+	// oracle 2: the snapshot is a parseable message equal to the original
+	if d := reparse(a, snap, orig, captured); d != "" {
+		sig := "c15:snapshot-not-equal-to-original"
+		if captured && a.Chunked() && !a.NilTrailer {
+			if reparse(a, append(append([]byte{}, snap...), '\r', '\n'), orig, true) == "" {
+				sig = "c15:snapshot-chunked-trailers-lacks-final-crlf"
+			}
+		}
+		r := fail(sig, "snapshot %s (snapshot ends %q)", d, tail(snap, 24))
+		r.Impl = impl
+		return r
+	}
+	return core.Result{Impl: impl}
+}
+
+func tail(b []byte, n int) string {
+	if len(b) > n {
+		b = b[len(b)-n:]
+	}
+	return string(b)
+}
+
+func (e *ex) sections() core.Result {
+	if e.mv == nil {
+		return core.Result{Impl: "no-snapshot"}
+	}
+	hb, _ := io.ReadAll(e.mv.HeaderReader())
+	br, _ := e.mv.BodyReader()
+	bb, _ := io.ReadAll(br)
+	tb, _ := io.ReadAll(e.mv.TrailerReader())
+	rd, _ := e.mv.Reader()
+	all, _ := io.ReadAll(rd)
+	impl := fmt.Sprintf("%s %s %s", core.Hex(hb), core.Hex(bb), core.Hex(tb))
+	if !bytes.Equal(all, append(append(append([]byte{}, hb...), bb...), tb...)) {
+		r := fail("c15:sections-do-not-partition", "header+body+trailer sections (%d+%d+%d bytes) are not the snapshot (%d bytes)", len(hb), len(bb), len(tb), len(all))
+		r.Impl = impl
+		return r
+	}
+	if !bytes.HasSuffix(hb, []byte("\r\n\r\n")) || bytes.Count(hb, []byte("\r\n\r\n")) != 1 {
+		r := fail("c15:header-section", "header section does not end at the first blank line: %q", tail(hb, 16))
+		r.Impl = impl
+		return r
+	}
+	return core.Result{Impl: impl}
+}
+
+// decode <inflated: na | err | hex>
+func (e *ex) decode(t []string) core.Result {
+	if e.mv == nil || len(t) != 2 {
+		return core.Result{Impl: "no-snapshot"}
+	}
+	br, err := e.mv.BodyReader(messageview.Decode())
+	if err != nil {
+		core.Count("decode:err")
+		return core.Result{Impl: "err"}
+	}
+	b, err := io.ReadAll(br)
+	if err != nil {
+		core.Count("decode:err")
+		return core.Result{Impl: "err"}
+	}
+	core.Count("decode:ok")
+	return core.Result{Impl: "ok " + core.Hex(b)}
+}
+
+// ---- twin experiment ----
+
+type logCapture struct {
+	mu    sync.Mutex
+	buf   bytes.Buffer
+	lines int
+}
+
+func (c *logCapture) Write(p []byte) (int, error) {
+	c.mu.Lock()
+	defer c.mu.Unlock()
+	return c.buf.Write(p)
+}
+
+func harOpt(post bool, spec string) har.Option {
+	kind, arg := spec, ""
+	if i := strings.IndexByte(spec, ':'); i >= 0 {
+		kind, arg = spec[:i], spec[i+1:]
+	}
+	cts := ctsOf(arg)
+	if arg == "" {
+		cts = nil
+	}
+	switch kind {
+	case "none":
+		if post {
+			return har.PostDataLogging(false)
+		}
+		return har.BodyLogging(false)
+	case "in":
+		if post {
+			return har.PostDataLoggingForContentTypes(cts...)
+		}
+		return har.BodyLoggingForContentTypes(cts...)
+	case "out":
+		if post {
+			return har.SkipPostDataLoggingForContentTypes(cts...)
+		}
+		return har.SkipBodyLoggingForContentTypes(cts...)
+	}
+	if post {
+		return har.PostDataLogging(true)
+	}
+	return har.BodyLogging(true)
+}
+
+// HarOpt is shared with c16.
+func HarOpt(post bool, spec string) har.Option { return harOpt(post, spec) }
+
+// twin <logger> <o1> <o2> <skiplog> <mode> M...
+func twin(t []string) core.Result {
+	if len(t) != 6+msggen.NTok {
+		return core.Result{Impl: "bad-op"}
+	}
+	logger, o1, o2, skiplog, mode := t[1], t[2], t[3], t[4] == "1", t[5]
+	a, ok := msggen.FromTokens(t[6:])
+	if !ok {
+		return core.Result{Impl: "bad-op"}
+	}
+	ctxReq := msggen.DummyReq()
+	var reqA, reqB *http.Request
+	var resA, resB *http.Response
+	if a.Req {
+		var bad string
+		reqA, bad = a.BuildRequest(mode)
+		if bad != "" {
+			return core.Result{Impl: "gen-mismatch " + bad}
+		}
+		reqB, _ = a.BuildRequest(mode)
+		ctxReq = reqA
+	} else {
+		var bad string
+		resA, bad = a.BuildResponse(mode, ctxReq)
+		if bad != "" {
+			return core.Result{Impl: "gen-mismatch " + bad}
+		}
+		resB, _ = a.BuildResponse(mode, msggen.DummyReq())
+	}
+	ctx, remove, err := martian.TestContext(ctxReq, nil, nil)
+	if err != nil {
+		return core.Result{Impl: "ctx-error"}
+	}
+	defer remove()
+	if skiplog {
+		ctx.SkipLogging()
+	}
+
+	rec := 0
+	var harLog *har.Logger
+	var modErr error
+	var finish func() // called after forwarding; sets rec
+	var mods struct {
+		req func(*http.Request) error
+		res func(*http.Response) error
+	}
+	switch logger {
+	case "har":
+		l := har.NewLogger()
+		harLog = l
+		l.SetOption(harOpt(true, o1), harOpt(false, o2))
+		mods.req, mods.res = l.ModifyRequest, l.ModifyResponse
+		finish = func() {
+			es := l.Export().Log.Entries
+			if len(es) > 0 && (a.Req || es[0].Response != nil) {
+				rec = 1
+			}
+		}
+	case "marbl":
+		c := &logCapture{}
+		m := marbl.NewModifier(c)
+		mods.req, mods.res = m.ModifyRequest, m.ModifyResponse
+		finish = func() {
+			// frames go through an unbuffered channel to one writer goroutine: when frame k+1 has
+			// been accepted, frame k is written; every logged message has >= 5 header frames
+			c.mu.Lock()
+			defer c.mu.Unlock()
+			if c.buf.Len() > 0 {
+				rec = 1
+			}
+		}
+	case "text":
+		l := martianlog.NewLogger()
+		l.SetHeadersOnly(o1 == "1")
+		l.SetDecode(o2 == "1")
+		n := 0
+		l.SetLogFunc(func(string) { n++ })
+		mods.req, mods.res = l.ModifyRequest, l.ModifyResponse
+		finish = func() {
+			if n > 0 {
+				rec = 1
+			}
+		}
+	case "snapshot":
+		mk := func() *messageview.MessageView {
+			mv := messageview.New()
+			switch {
+			case o1 == "1":
+				mv.SkipBody(true)
+			case strings.HasPrefix(o1, "ct:"):
+				mv.SkipBodyUnlessContentType(ctsOf(o1[3:])...)
+			}
+			return mv
+		}
+		mods.req = func(r *http.Request) error { return mk().SnapshotRequest(r) }
+		mods.res = func(r *http.Response) error { return mk().SnapshotResponse(r) }
+		finish = func() { rec = 1 }
+	default:
+		return core.Result{Impl: "bad-op"}
+	}
+
+	var outA, outB bytes.Buffer
+	var hA, hB head
+	var werrA, werrB error
+	if a.Req {
+		modErr = mods.req(reqA)
+		werrA = reqA.Write(&outA)
+		werrB = reqB.Write(&outB)
+		hA, hB = headOfReq(reqA, false), headOfReq(reqB, false)
+		hA.trailer, hB.trailer = msggen.SortedKV(reqA.Trailer), msggen.SortedKV(reqB.Trailer)
+		if reqA.Close != reqB.Close || !reflect.DeepEqual(reqA.Header, reqB.Header) {
+			hA.line += " [close/header differ]"
+		}
+	} else {
+		if logger == "har" {
+			// the entry the response would attach to exists whatever the skip flag says now
+			// (the flag may be set by a modifier that runs after the logger saw the request)
+			harLog.RecordRequest(ctx.ID(), ctxReq)
+		}
+		modErr = mods.res(resA)
+		werrA = resA.Write(&outA)
+		werrB = resB.Write(&outB)
+		hA, hB = headOfRes(resA, false), headOfRes(resB, false)
+		hA.trailer, hB.trailer = msggen.SortedKV(resA.Trailer), msggen.SortedKV(resB.Trailer)
+		if resA.Close != resB.Close || !reflect.DeepEqual(resA.Header, resB.Header) {
+			hA.line += " [close/header differ]"
+		}
+	}
+	finish()
+	core.Count("twin:" + logger)
+	impl := fmt.Sprintf("same rec=%d", rec)
+	if d := forwardedDiff(a.Req, outA.Bytes(), outB.Bytes(), werrA, werrB); d != "" {
+		r := fail("c15:forwarded-differs:"+logger, "forwarded message differs from unlogged twin: %s", d)
+		r.Impl = "differs"
+		return r
+	}
+	if d := hA.diff(hB); d != "" {
+		r := fail("c15:fields-differ:"+logger, "message fields after logging differ from unlogged twin: %s", d)
+		r.Impl = "differs"
+		return r
+	}
+	if skiplog && rec != 0 && logger != "snapshot" {
+		r := fail("c15:skip-logging-recorded:"+logger, "exchange marked skip-logging was recorded by the %s logger", logger)
+		r.Impl = impl
+		return r
+	}
+	if modErr != nil {
+		// the logger gave up with an error (undecodable body, malformed form/multipart): whether
+		// a record exists then depends on the trusted decoders; oracle-only
+		core.Count("twin:logger-error")
+		return core.Result{Impl: impl, SkipModel: true}
+	}
+	return core.Result{Impl: impl}
+}
+
+// forwardedDiff compares what Write put on the wire for the logged message and for its twin:
+// byte for byte unless the message is chunked (chunk boundaries are not part of the message),
+// in which case both are parsed again and compared as messages (framing kind, length, headers,
+// body bytes, trailers).
+func forwardedDiff(isReq bool, outA, outB []byte, werrA, werrB error) string {
+	if fmt.Sprint(werrA) != fmt.Sprint(werrB) {
+		return fmt.Sprintf("write errors %v vs %v", werrA, werrB)
+	}
+	if bytes.Equal(outA, outB) {
+		return ""
+	}
+	parse := func(b []byte) (head, http.Header, string) {
+		if isReq {
+			r, err := http.ReadRequest(bufio.NewReader(bytes.NewReader(b)))
+			if err != nil {
+				return head{}, nil, err.Error()
+			}
+			return headOfReq(r, true), r.Header, ""
+		}
+		r, err := http.ReadResponse(bufio.NewReader(bytes.NewReader(b)), msggen.DummyReq())
+		if err != nil {
+			return head{}, nil, err.Error()
+		}
+		return headOfRes(r, true), r.Header, ""
+	}
+	hA, rawA, eA := parse(outA)
+	hB, rawB, eB := parse(outB)
+	if eA != "" || eB != "" {
+		return fmt.Sprintf("forwarded bytes do not parse: %q vs %q", eA, eB)
+	}
+	if hB.te != "chunked" || hA.te != "chunked" {
+		i := 0
+		for i < len(outA) && i < len(outB) && outA[i] == outB[i] {
+			i++
+		}
+		lo := i - 24
+		if lo < 0 {
+			lo = 0
+		}
+		return fmt.Sprintf("%d vs %d bytes, first difference at %d: %q vs %q", len(outA), len(outB), i, clip(outA, lo, i+24), clip(outB, lo, i+24))
+	}
+	if d := hA.diff(hB); d != "" {
+		return d
+	}
+	if !reflect.DeepEqual(rawA, rawB) {
+		return fmt.Sprintf("header fields %v vs %v", rawA, rawB)
+	}
+	return ""
+}
+
+func clip(b []byte, lo, hi int) []byte {
+	if hi > len(b) {
+		hi = len(b)
+	}
+	if lo > hi {
+		lo = hi
+	}
+	return b[lo:hi]
+}
